@@ -7,6 +7,35 @@ ROOT = os.path.dirname(os.path.dirname(os.path.abspath(__file__)))
 ALL = ["C%02d" % i for i in range(1, 20)]
 
 CHECKS = {
+    "C03": {
+        "spec": "specs/Runtime.tla + RuntimeTrace.tla",
+        "text": 'Same specification and pipeline as C01 for AtMostOnce, AdoptReturnsNone, ExactlyOnce (liveness on the model, observed at quiescence), RightFlavour and ArgsExact: flavour assignments of three payloads with argument tuples/dicts, one queued before start and two adopted afterwards from a thread or from inside payloads of each flavour, 0..2 services (one falsy) created before/after start from any context, optional racing shutdown; targeted scripts adopt every flavour while the runtime is closing (several delays) and let several threads queue the first pre-start payloads at the same instant.',
+        "note": "as C01; callers wait for `running` before adopting (a submission overlapping accept()'s own start-up is outside the claim, DESIGN 7.4); thread/loop identity and argument equality are recorded by the payloads.",
+        "design": "5/C03, 4.1",
+        "technique": 'TLA+ model checking (TLC, safety + liveness) of the runtime protocol + TLC-simulated behaviours forced onto the real runtime + trace validation',
+    },
+    "C10": {
+        "spec": "specs/Runtime.tla + RuntimeTrace.tla",
+        "text": 'Same specification and pipeline as C01 for the execute formulas ExecOnce, ExecArgsExact, ExecOutcomeIdentity, ExecRightFlavour, ExecNotAFailure and ExecReturns: executed flavour x calling context (outside thread, thread payload, coroutine payload of another flavour) x outcomes (None, falsy/truthy values, Exception subclasses) x arguments, sequences of calls interleaved with adopted bystanders which must still answer afterwards.',
+        "note": "as C01; no two blocking executes waiting on each other's loop thread (DESIGN 7.5); outcome identity is tested with `is` in the harness.",
+        "design": "5/C10, 4.1",
+        "technique": 'TLA+ model checking (TLC, safety + liveness) of the runtime protocol + TLC-simulated behaviours forced onto the real runtime + trace validation',
+    },
+    "C11": {
+        "spec": "specs/Runtime.tla + RuntimeTrace.tla",
+        "text": 'Same specification and pipeline as C01 for RightFlavour / ExecRightFlavour (one loop, one thread per coroutine flavour for adopted, service and executed payloads; thread payloads elsewhere), NoOverlap (enter/exit events of synchronous sections commanded to several payloads of a flavour at once) and BlockingDoesNotStall; targeted scripts execute coroutine payloads from a thread payload while the runtime is closing and block 36 thread payloads adopted from inside a coroutine payload.',
+        "note": 'as C01; overlap and identity are observations recorded by the payloads into the global event sequence; a 1 s unanswered command while threads block counts as a stall.',
+        "design": "5/C11, 4.1",
+        "technique": 'TLA+ model checking (TLC, safety + liveness) of the runtime protocol + TLC-simulated behaviours forced onto the real runtime + trace validation',
+    },
+    "C12": {
+        "spec": "specs/Runtime.tla + RuntimeTrace.tla",
+        "text": 'Runtime.tla with three runners competing for the accept guard: AtMostOneAccepting, GuardReleasedOnEveryExit, SecondAcceptRejectedCleanly, ShutdownReturns (liveness), StopReturnsNormally, RestartPossible. Shapes = how runner 1 ends (shutdown from a thread / SIGINT / failing payload) x payload population at that time, with a concurrent accept placed by TLC anywhere and always a restart by another runner afterwards; targeted scripts park the service loop at its first instant while shutdown() is issued, and try several rejected accepts in a row.',
+        "note": 'as C01; finitely many adoptions after shutdown() begins; one process per history.',
+        "design": "5/C12, 4.1",
+        "technique": 'TLA+ model checking (TLC, safety + liveness) of the runtime protocol + TLC-simulated behaviours forced onto the real runtime + trace validation',
+    },
+
     "C01": {
         "spec": "specs/Runtime.tla + RuntimeTrace.tla",
         "text": "Runtime.tla models the daemon runtime's observable protocol (API calls and returns, payload life cycles of all three flavours, phase changes, failure / interrupt / shutdown triggers, the accept guard); one action per observable event, all interleavings. Per scenario shape (failing flavour x failure kind x registration time x bystander population) TLC checks FailStopSafe, CauseFaithful and the liveness property FailStopLive on the model, then generates behaviours by simulation; the driver forces each behaviour's controllable actions onto a real ServiceRunner with gated payloads (the runtime's own steps run freely, perturbed by seeded jitter at the guarded hooks) and TLC validates the recorded trace: every formula on the observed state, every event against the specification's action.",
